@@ -1,5 +1,8 @@
 import MsPack.Driver.Core
 import MsPack.Cab.Checksum
+import MsPack.Cabx.OutName
+import MsPack.Cabx.Modes
+import MsPack.Lzss.Decoder
 /-
 `prim WHAT ARGS…`: direct calls of the models of static functions.
 -/
@@ -9,12 +12,72 @@ open MsPack MsPack.Driver
 structure State where
   unit : Unit := ()
 
+/-- `(NAMEHEX UTF8)*` -/
+def parsePairs : List String → Option (List (Bytes × Bool))
+  | [] => some []
+  | [_] => none
+  | n :: u :: more =>
+    match parseHex n, parseNat u, parsePairs more with
+    | some nb, some uv, some ps => some ((nb, uv != 0) :: ps)
+    | _, _, _ => none
+
 def handle (toks : List String) : HM State Bool := do
   match toks with
   | ["prim", "cksum", hex, seed] =>
     match parseHex hex, parseNat seed with
     | some bs, some s => emit s!"prim cksum {Cab.cksum bs s}"
     | _, _ => emit "prim cksum bad-args"
+    return true
+  | ["prim", "outname", nameHex, utf8, lower, dirHex] =>
+    -- cabextract create_output_name(fname, dir, lower, isunix=0, utf8); DIR `-` = NULL, `=` = ""
+    let dir : Option (Option Bytes) := if dirHex = "-" then some none else (parseHex dirHex).map some
+    match parseHex nameHex, parseNat utf8, parseNat lower, dir with
+    | some nm, some u, some l, some d =>
+      match Cabx.createOutputName nm d (l != 0) false (u != 0) with
+      | none => emit "prim outname NULL"
+      | some [] => emit "prim outname ="
+      | some bs => emit s!"prim outname {toHex bs}"
+    | _, _, _, _ => emit "prim outname bad-args"
+    return true
+  | "prim" :: "outnames" :: lower :: dirHex :: rest =>
+    -- driver-only (no harness counterpart): the names `cabextract -l` prints for a whole cabinet:
+    -- prim outnames LOWER DIRHEX (NAMEHEX UTF8)* ; isunix = unix_path_seperators(all names)
+    let dir : Option (Option Bytes) := if dirHex = "-" then some none else (parseHex dirHex).map some
+    match parseNat lower, dir, parsePairs rest with
+    | some l, some d, some ps =>
+      let isunix := Cabx.unixPathSeparators (ps.map (·.1))
+      let outs := ps.map fun (nm, u) => optHex (Cabx.createOutputName nm d (l != 0) isunix u)
+      emit s!"prim outnames isunix={if isunix then 1 else 0} {" ".intercalate outs}"
+    | _, _, _ => emit "prim outnames bad-args"
+    return true
+  | ["prim", "lzss", mode, hex] =>
+    -- lzss_decompress(sys, "@lzss.in", "@lzss.out", 2048, mode); a negative mode is not one of the three
+    let modeN : Option Nat := if mode.startsWith "-" then (parseNat (mode.drop 1).toString).map (· + 3) else parseNat mode
+    match modeN, parseHex hex with
+    | some m, some bs =>
+      putFile "@lzss.in" bs
+      match Lzss.decompress Rd.src (16 * bs.length + 100000) (⟨bs, 0⟩ : Rd) 2048 m with
+      | .error f => emit s!"prim lzss FAULT {reprStr f}"
+      | .ok o =>
+        putFile "@lzss.out" o.written
+        emit s!"prim lzss st={o.err.code} out={outDigest o.written}"
+    | _, _ => emit "prim lzss bad-args"
+    return true
+  | "prim" :: "select" :: lower :: dirHex :: npat :: rest =>
+    -- driver-only: which members `cabextract -F PAT.. [-L] [-d DIR]` acts upon (0-based indices, cabinet order):
+    -- prim select LOWER DIRHEX NPAT PATHEX*NPAT (NAMEHEX UTF8)* ; fnmatch = Cabx.globMatch (no brackets/escapes)
+    let dir : Option (Option Bytes) := if dirHex = "-" then some none else (parseHex dirHex).map some
+    match parseNat lower, dir, parseNat npat with
+    | some l, some d, some np =>
+      match (rest.take np).mapM parseHex, parsePairs (rest.drop np) with
+      | some pats, some ps =>
+        let ms : List Cabx.Member := ps.map fun (nm, u) => { name := nm, utf8 := u, data := [] }
+        let a : Cabx.Args := { dir := d, lower := l != 0, filters := pats }
+        let isunix := Cabx.unixPathSeparators (ms.map (·.name))
+        let idx := (ms.zipIdx.filter fun (m, _) => (Cabx.selectName Cabx.globMatch a isunix m).isSome).map (·.2)
+        emit s!"prim select {" ".intercalate (idx.map toString)}"
+      | _, _ => emit "prim select bad-args"
+    | _, _, _ => emit "prim select bad-args"
     return true
   | _ => return false
 
